@@ -222,8 +222,8 @@ def check_sig(sig, acc=None):
         res_ident = []
         for oi, o in enumerate(sig["outs"]):
             noop = {"cast_i32": "int32", "cast_f16": "float16", "cast_i8": "int8", "cast_u8": "uint8", "dbl": "bool"}
-            if not sig.get("double"):
-                noop["cast_i64"] = "int32"  # without x64, astype(int64) canonicalises to int32: a no-op on an int32 input
+            # astype(int64) is a no-op on an argument JAX already traces as int64 (x64) / canonicalises to int32 (no x64)
+            noop["cast_i64"] = "int64" if sig.get("double") else "int32"
             if o[0] == "in":
                 cur = ("in", o[1] % nin)
             elif o[0] == "dup":
